@@ -330,7 +330,7 @@ fn native(stark: Chain, p: &SP, cfg: &StarkConfig, vparams: Option<FriParams>) -
     }
 }
 
-fn run_scenario(s: &Value, selftest: bool) -> Vec<Value> {
+fn run_scenario(s: &Value, selftest_all: bool) -> Vec<Value> {
     let id = s["id"].as_str().unwrap_or("?").to_string();
     let mut out = vec![];
     let mut r = rng_for(&id, 11);
@@ -395,7 +395,15 @@ fn run_scenario(s: &Value, selftest: bool) -> Vec<Value> {
         };
         let nlayers = honest.proof.opening_proof.commit_phase_merkle_caps.len();
         let classes: Vec<String> = serde_json::from_value(s["classes"][nlayers.min(3).to_string()].clone()).unwrap_or_default();
-        for class in &classes {
+        // binding self-test (scenario field "selftest"): an extra pass over final_poly with the untampered proof assigned
+        let passes: Vec<(bool, Vec<String>)> = if s["selftest"].as_bool().unwrap_or(false) {
+            vec![(selftest_all, classes.clone()), (true, vec!["final_poly".to_string()])]
+        } else {
+            vec![(selftest_all, classes.clone())]
+        };
+        for (selftest, classes) in &passes {
+        let selftest = *selftest;
+        for class in classes {
             let c = class.as_str();
             let mut cases: Vec<(SP, Value)> = vec![];
             match split_class(c).0 {
@@ -457,8 +465,8 @@ fn run_scenario(s: &Value, selftest: bool) -> Vec<Value> {
                 let shown = if selftest && c == "final_poly" { &honest } else { &p };
                 let (assignable, acc, stage, detail) = accept(shown);
                 let mut row = json!({"id": id, "db": db, "layers": nlayers, "class": class, "inst": inst, "desc": desc, "changed": changed,
-                    "native": nat, "native_detail": nd, "assignable": assignable, "circuit": acc, "stage": stage, "detail": detail});
-                if acc && sampled < sample {
+                    "native": nat, "native_detail": nd, "assignable": assignable, "circuit": acc, "stage": stage, "detail": detail, "selftest": selftest});
+                if acc && sampled < sample && !selftest {
                     sampled += 1;
                     let mut pw = PartialWitness::new();
                     let dbp = shown.proof.recover_degree_bits(&cfg);
@@ -475,6 +483,7 @@ fn run_scenario(s: &Value, selftest: bool) -> Vec<Value> {
                 }
                 out.push(row);
             }
+        }
         }
     }
     // lengths the model lists as not assignable (final polynomial longer than the circuit's): recorded, nothing asserted
